@@ -60,14 +60,17 @@ class Zygote(object):
         self.spawn(wait=wait)
 
     def spawn(self, wait=True):
-        env = dict(os.environ)
-        env['PYTHONHASHSEED'] = str(self.hashseed)
-        env['PYTHONDONTWRITEBYTECODE'] = '1'
-        env['VERIF_REPO'] = self.pool.repo
-        env['VERIF_DIR'] = VERIF_DIR
-        env['VERIF_SCRATCH'] = os.path.join(self.pool.scratch, 's%03d' % self.slot)
-        env.pop('PYTHONPATH', None)
-        env.pop('PYMINIFY_FORCE_BEST_EFFORT', None)
+        # a fixed, minimal environment: the child's heap layout (and with it id()-ordered iteration and exact step
+        # counts) must not depend on what happens to be in the driver's environment
+        env = {
+            'PATH': '/usr/bin:/bin',
+            'LANG': 'C.UTF-8',
+            'PYTHONHASHSEED': str(self.hashseed),
+            'PYTHONDONTWRITEBYTECODE': '1',
+            'VERIF_REPO': self.pool.repo,
+            'VERIF_DIR': VERIF_DIR,
+            'VERIF_SCRATCH': os.path.join(self.pool.scratch, 's%03d' % (self.slot % 1000)),
+        }
         cmd = [PY, '-S', os.path.join(VERIF_DIR, 'sim', 'zygote.py')]
         if self.pool.use_setarch:
             cmd = ['setarch', '-R'] + cmd
@@ -163,7 +166,7 @@ class Pool(object):
         self.hashseeds = list(hashseeds)
         self.wall_cap = wall_cap
         clean_stale_scratch()
-        self.scratch = os.path.join(scratch_base(), 'pmv-%d-%s' % (os.getpid(), os.urandom(3).hex()))
+        self.scratch = os.path.join(scratch_base(), 'pmv-%08d-%s' % (os.getpid(), os.urandom(3).hex()))
         os.makedirs(self.scratch)
         self.stderr_path = os.path.join(self.scratch, 'zygote.stderr')
         self.stderr_file = open(self.stderr_path, 'ab')
